@@ -307,6 +307,15 @@ func Stage5Variants() [][]byte {
 		Box("udta", Box("meta", Cat(h1, Box("ilst", Box("\xa9too", data(1, 0, "enc")))))),
 		fb("mime", 0, 0, []byte("text/plain\x00")), fb("mime", 0, 0, []byte("image/png")), fb("mime", 1, 5, []byte("a\x00b\x00")), fb("mime", 0, 0, []byte("\x00")),
 	)
+	// AC-3 / E-AC-3 specific boxes: dac3 with and without initial zero bytes, dec3 with one and two substreams (with and
+	// without dependent substreams / ChanLoc) and trailing Reserved bytes, inside their sample entries as well
+	dac3, dec3 := Box("dac3", []byte{0x10, 0x3d, 0x40}), Box("dec3", []byte{0x07, 0xc0, 0x20, 0x0f, 0x00})
+	out = append(out, dac3, Box("dac3", []byte{0, 0, 0x50, 0x11, 0xff}), dec3,
+		Box("dec3", []byte{0x0c, 0x01, 0x20, 0x0f, 0x03, 0x21, 0x60, 0x8e, 0x00}), Box("dec3", []byte{0x07, 0xc0, 0x20, 0x0f, 0x00, 0x01, 0x02}))
+	ase := func(typ string, kid []byte) []byte {
+		return Box(typ, Cat(make([]byte, 6), U16(1), make([]byte, 8), U16(2), U16(16), make([]byte, 4), U16(48000), U16(0), kid))
+	}
+	out = append(out, ase("ac-3", dac3), ase("ec-3", dec3), ase("ec-3", Cat(dec3, Box("btrt", Cat(U32(1), U32(2), U32(3))))))
 	wv := func(r6 []byte, dri uint16, kids ...[]byte) []byte { return Box("wvtt", Cat(r6, U16(dri), Cat(kids...))) }
 	z6 := make([]byte, 6)
 	vttC, vlab, btrt := Box("vttC", []byte("WEBVTT")), Box("vlab", []byte("source")), Box("btrt", Cat(U32(1), U32(2), U32(3)))
